@@ -15747,6 +15747,8 @@ R_<TG_, TA_>::reset() noexcept {
 
 	_apex.deepRequestChange(control, {TransitionType::RESTART, INVALID_SHORT});
 	_apex.deepEnter(control);
+
+	HFSM2_IF_STRUCTURE_REPORT(udpateActivity());
 }
 
 #if HFSM2_TRANSITION_HISTORY_AVAILABLE()
